@@ -411,6 +411,12 @@ func requireOp(req *fnv1.RunFunctionRequest, rsp *fnv1.RunFunctionResponse, xr m
 			}
 		}
 		rsp.Requirements.ExtraResources["pg"] = &fnv1.ResourceSelector{ApiVersion: av, Kind: kind, Match: &fnv1.ResourceSelector_MatchLabels{MatchLabels: &fnv1.MatchLabels{Labels: map[string]string{"page": fmt.Sprint(page)}}}}
+	case "once":
+		// needs something to get going and nothing afterwards: requirements go
+		// from one entry to none between rounds
+		if _, ok := req.GetExtraResources()["seed"]; !ok {
+			rsp.Requirements.ExtraResources["seed"] = byName("e0")
+		}
 	case "narrow":
 		// narrows its label selector once it has seen what the wide one matches:
 		// the second round's selector is the first one plus one more label
